@@ -167,6 +167,12 @@ func readFullLine(reader *bufio.Reader) (string, error) {
 		l, more, err := reader.ReadLine()
 
 		if err != nil {
+			// The input ended right after a full buffer: what was read so
+			// far is the last line
+			if err == io.EOF && line != nil {
+				return string(line), nil
+			}
+
 			return "", err
 		}
 
